@@ -314,6 +314,22 @@ func stageFault(spec *stageSpec, id, name, phase, md, outFile string, result *st
 		p, _ := os.FindProcess(os.Getpid())
 		p.Kill()
 		time.Sleep(time.Second)
+	case "stale_defs":
+		// a split job that writes a chunk list (shorter than the one it
+		// would have returned) and then fails: the list of the failed
+		// attempt must not survive into the next one
+		var sd struct {
+			Chunks []json.RawMessage `json:"chunks"`
+			Join   json.RawMessage   `json:"join"`
+		}
+		if phase == "split" && json.Unmarshal([]byte(*result), &sd) == nil {
+			if len(sd.Chunks) > 1 {
+				sd.Chunks = sd.Chunks[:1]
+			}
+			b, _ := json.Marshal(sd)
+			os.WriteFile(filepath.Join(md, outFile), b, 0o644)
+		}
+		os.Exit(3)
 	case "truncated":
 		*result = (*result)[:len(*result)/2]
 	case "invalid":
